@@ -154,10 +154,12 @@ def correspondence(ctx: Ctx, cases: list, world: str) -> None:
         n_prop_checked += len(rp.get("S", []))
         for src, found, cells in fails:
             if not cells:
-                ctx.report({"class": "roundtrip-fails", "ns": case.ns, "epb": case.epb},
-                           "%s is given module '%s' but find_module('%s') returns %s (no duplicate module, no excluded cell)"
-                           % (src[0].replace(world, "<W>"), src[1], src[1], found.replace(world, "<W>")),
-                           replay_detail(case, real, mline, world))
+                ctx.count("roundtrip_failures_outside_excluded_cells")
+                if ctx.coverage["roundtrip_failures_outside_excluded_cells"] <= 3:
+                    ctx.report({"class": "roundtrip-fails", "ns": case.ns, "epb": case.epb},
+                               "%s is given module '%s' but find_module('%s') returns %s (no duplicate module, no excluded cell)"
+                               % (src[0].replace(world, "<W>"), src[1], src[1], found.replace(world, "<W>")),
+                               replay_detail(case, real, mline, world))
             else:
                 for c in cells:
                     ctx.dist("roundtrip_failures_by_excluded_cell", c)
@@ -180,6 +182,8 @@ def correspondence(ctx: Ctx, cases: list, world: str) -> None:
         mp = layout.parse(mline)
         if "H" in mp and mp["H"].get("gr") == "1" and mp["H"].get("re") == "1" and mp["H"].get("dup") == "0":
             for ent in mline.split(" # C ")[1].split(" # ")[0].split(";") if " # C " in mline else []:
+                if "|" not in ent:
+                    continue
                 bits = dict(x.split("=") for x in ent.split("|")[1].split(","))
                 if bits["ok"] == "1" and bits["rt"] != "1":
                     raise ToolFailure("driver contradicts roundtrip_or_duplicate_partial on " + ent)
